@@ -225,3 +225,47 @@ Proof.
   - right. rewrite H1, H2. reflexivity.
 Qed.
 Print Assumptions own_round_adjacent.
+
+(* ---------- just above the range: odd integers in [2^52, 2^53) tie and go to the even neighbour ---------- *)
+Lemma round_tie sg m : 2^52 <= m < 2^53 ->
+  round_fin b64 sg (2 * m + 1) (-1) = FFin sg (if Z.even m then m else m + 1) 0.
+Proof.
+  intros Hm. rewrite p52, p53 in Hm. rewrite round_fin_b64_eq.
+  destruct (Z.eqb_spec (2 * m + 1) 0) as [Hz|_]; [lia|]. cbv zeta.
+  assert (HL: Z.log2 (2 * m + 1) = 53).
+  { apply Z.log2_unique; [lia|]. change (2^53) with 9007199254740992. change (2^Z.succ 53) with 18014398509481984. lia. }
+  rewrite HL. change (Z.max (53 + -1 - 52) (-1074)) with 0.
+  change (0 <=? -1) with false. cbv iota. change (0 - -1) with 1.
+  assert (HM: rne_shift (2 * m + 1) 1 = if Z.even m then m else m + 1).
+  { unfold rne_shift. cbv zeta. change (2^1) with 2. change (2^(1-1)) with 1.
+    assert (Hq: (2 * m + 1) / 2 = m) by (Z.div_mod_to_equations; lia).
+    assert (Hr: (2 * m + 1) mod 2 = 1) by (Z.div_mod_to_equations; lia).
+    rewrite Hq, Hr. reflexivity. }
+  rewrite HM. set (M := if Z.even m then m else m + 1).
+  assert (HMb: 4503599627370496 <= M <= 9007199254740992) by (unfold M; destruct (Z.even m); lia).
+  destruct (Z.eqb_spec M 0) as [Hz|_]; [lia|].
+  assert (HlM: Z.log2 M <= 53).
+  { change 53 with (Z.log2 (2^53)). apply Z.log2_le_mono. rewrite p53. lia. }
+  destruct (Z.leb_spec 1024 (Z.log2 M + 0)) as [Hc|_]; [lia|]. reflexivity.
+Qed.
+
+Theorem own_round_2p52 : own_round_2p52_stmt.
+Proof.
+  unfold own_round_2p52_stmt. intros neg m Hm. pose proof (round_tie false m Hm) as Hf. pose proof (round_tie true m Hm) as Ht.
+  rewrite p52, p53 in Hm.
+  unfold own_round. rewrite fge_z_0, !fadd_half by lia. cbv zeta. change (2^(0+1)) with 2.
+  unfold signed_m. destruct neg.
+  - destruct (Z.leb_spec 0 (- m)) as [Hc|_]; [lia|].
+    replace (-1 * m * 2 + -1) with (- (2 * m + 1)) by ring.
+    destruct (Z.eqb_spec (- (2 * m + 1)) 0) as [Hz|_]; [lia|].
+    destruct (Z.ltb_spec (- (2 * m + 1)) 0) as [_|Hz]; [|lia].
+    rewrite Z.abs_neq, Z.opp_involutive by lia. rewrite Ht.
+    unfold fceil, signed_m. change (0 <=? 0) with true. cbv iota. change (2^0) with 1. f_equal. ring.
+  - destruct (Z.leb_spec 0 m) as [_|Hc]; [|lia].
+    replace (1 * m * 2 + 1) with (2 * m + 1) by ring.
+    destruct (Z.eqb_spec (2 * m + 1) 0) as [Hz|_]; [lia|].
+    destruct (Z.ltb_spec (2 * m + 1) 0) as [Hz|_]; [lia|].
+    rewrite Z.abs_eq by lia. rewrite Hf.
+    unfold ffloor, signed_m. change (0 <=? 0) with true. cbv iota. change (2^0) with 1. f_equal. ring.
+Qed.
+Print Assumptions own_round_2p52.
